@@ -235,6 +235,10 @@ def _rest(m, run):
     n_ct = len(run.obs)
     try:
         _sd.ct2(m, run)
+        _sd.tt2(m, run)
+        _sd.ls2(m, run)        # the vertex re-evaluation is done at the stored parameters themselves (LS2)
+        from .. import rules_state as _rs15
+        _rs15.iv4_deepcopy(m, run)     # a copy of a surface has its own tessellation component and mesh (DC9)
     except AnalysisError as ex:
         run.error(str(ex))
     ct_ok = len(run.obs) > n_ct and all(o.ok for o in run.obs[n_ct:])
